@@ -77,7 +77,8 @@ class Woven:
         dropped = []
         for m in self.members():
             if m.name not in keep:
-                self.repls.append(Repl(self.ct[m.attrs_lo][2], self.ct[m.hi][3], '', 'D-item:' + str(m.name)))
+                # start right after the previous code token so that the item's doc comments go too
+                self.repls.append(Repl(self.ct[m.attrs_lo - 1][3], self.ct[m.hi][3], '', 'D-item:' + str(m.name)))
                 dropped.append(m.name)
         return dropped
 
@@ -195,6 +196,11 @@ class Woven:
         for k in range(n):
             a, b = self._find(pattern, k)
             self.repls.append(Repl(self.ct[a][2], self.ct[b][3], '', 'D-attr'))
+
+    def attr(self, text):
+        """An attribute in front of the item (also carried by the vacuity-probe copy)."""
+        self.insert_before_tok(self.item.lo, text + '\n')
+        self.probe_prefix = getattr(self, 'probe_prefix', '') + text + '\n'
 
     # fn-level contract
     def name_result(self, var='r'):
@@ -326,10 +332,10 @@ class Woven:
         end = self.ct[self.hi][3]
         events = []
         for ch in self.chunks:
-            events.append((ch.pos, 1, ch.order, ch))
+            events.append((ch.pos, 0, ch.order, ch))
         rcount = {}
         for r in sorted(self.repls, key=lambda r: r.start):
-            events.append((r.start, 0, 0, r))
+            events.append((r.start, 1, 0, r))
         events.sort(key=lambda e: (e[0], e[1], e[2]))
         out = []
         spans = []
@@ -342,12 +348,14 @@ class Woven:
             line += s.count('\n')
 
         repl_table = []
+        self.chunk_start_off = {}
         for p, _, _, ev in events:
             if p < pos:
                 raise ExtractError('%s: overlapping edits at byte %d' % (self.name(), p))
             emit(self.src[pos:p])
             pos = p
             if isinstance(ev, Chunk):
+                self.chunk_start_off.setdefault(p, sum(len(x) for x in out))
                 l0 = line + (1 if ev.text.startswith('\n') else 0)
                 emit('/*+K*/' + ev.text)
                 l1 = line - (1 if ev.text.endswith('\n') else 0)
